@@ -913,6 +913,12 @@ class _LinalgStub:
             return np.dot(shim.as_obj(inv), np.asarray(hx.unwrap(b), dtype=object))
         return np.linalg.solve(a, shim.normalise(b))
 
+    def cholesky(self, a):
+        return np.linalg.cholesky(shim.normalise(a))
+
+    def inv(self, a):
+        return np.linalg.inv(shim.normalise(a))
+
 
 class _NPWithLinalg:
     def __init__(self, base):
@@ -924,9 +930,10 @@ class _NPWithLinalg:
 
 
 def _install_linalg_stub():
-    from autoarray.inversion.inversion import inversion_util
-    if not isinstance(inversion_util.np, _NPWithLinalg):
-        inversion_util.np = _NPWithLinalg(inversion_util.np)
+    from autoarray.inversion.inversion import inversion_util, abstract
+    for mod in (inversion_util, abstract):
+        if not isinstance(mod.np, _NPWithLinalg):
+            mod.np = _NPWithLinalg(mod.np)
 
 
 def level_inversion(inp, mask_id, w_tilde, full=False):
@@ -941,6 +948,8 @@ def level_inversion(inp, mask_id, w_tilde, full=False):
     pix_mask = np.array([True, False, False, False, True, False, False, False, False])
 
     def build():
+        from autoconf import conf
+        conf.instance["general"]["inversion"]["check_reconstruction"] = False     # (a fork on "all values equal" per solve otherwise)
         m = aa.Mask2D(mask=mk.copy(), pixel_scales=(1.0, 1.0))
         data = aa.Array2D(values=np.array(dv, copy=True), mask=m)
         noise = aa.Array2D(values=noise_c.copy(), mask=m)
@@ -973,8 +982,7 @@ def level_inversion(inp, mask_id, w_tilde, full=False):
              ("reconstruction", lambda o: o.reconstruction), ("mapped_reconstructed_data", lambda o: o.mapped_reconstructed_data),
              ("mapped_reconstructed_image", lambda o: o.mapped_reconstructed_image), ("regularization_term", lambda o: o.regularization_term),
              ("log_det_curvature_reg_matrix_term", lambda o: o.log_det_curvature_reg_matrix_term)]
-    q_mv = [("values_masked", lambda o: o.values_masked), ("mapped_reconstructed_image_from", lambda o: o.mapped_reconstructed_image_from()),
-            ("magnification_via_mesh_from", lambda o: o.magnification_via_mesh_from())]
+    q_mv = [("values_masked", lambda o: o.values_masked), ("mapped_reconstructed_image_from", lambda o: o.mapped_reconstructed_image_from())]
     if full:
         q_mapper += [("sub_slim_indexes_for_pix_index", lambda o: o.sub_slim_indexes_for_pix_index),
                      ("pix_indexes_for_sub_slim_index", lambda o: o.pix_indexes_for_sub_slim_index)]
@@ -998,7 +1006,7 @@ def level_inversion(inp, mask_id, w_tilde, full=False):
     obs = [("inputs", lambda G: [_structure(G["data"]), _structure(G["noise"]), _structure(G["psf"]), _structure(G["m"]), _structure(G["grid"]),
                                  _val(G["mesh_grid"]), G["src_vals0"], G["src_pix_mask"], settings_state(G)]),
            ("mv.values (caller array)", lambda G: G["src_vals"])]
-    for who, qs in (("mapper", q_mapper[:2]), ("inv", q_inv), ("mv", q_mv[:2]), ("mv0", q_mv[:2])):
+    for who, qs in (("mapper", q_mapper[:2]), ("inv", [q for q in q_inv if q[0] != "regularization_term"]), ("mv", q_mv[:2]), ("mv0", q_mv[:2])):
         obs += [("%s.%s" % (who, nm), lambda G, who=who, f=f: f(G[who])) for nm, f in qs]
     return build, ops, obs
 
@@ -1021,7 +1029,253 @@ def case_hist_inversion(ctx, mask_id, w_tilde, k, op0=None, full=False):
     _hist_case(ctx, "inversion", inputs, {"mask_id": mask_id, "w_tilde": w_tilde, "full": full}, k, op0, tol=1e-9)
 
 
-BODIES = {"case_ctor_struct": body_ctor_struct, "case_hist_vis": body_hist, "case_hist_array": body_hist, "case_hist_grid": body_hist, "case_hist_mask": body_hist, "case_hist_imaging": body_hist, "case_hist_inversion": body_hist}
+# =====================================================================================================================
+# Part C - seeded simulation does not depend on the prior state of the global random generator
+# =====================================================================================================================
+class _RNGStub:
+    """symbolic model of numpy's global generator inside autoarray.dataset.preprocess: the state is (seed term, number
+    of draws since seeding); seed(k) sets it; every draw is an uninterpreted function of (state, element index,
+    distribution parameter).  Natively (validation / replay) it is the real numpy.random."""
+
+    def __init__(self):
+        self.seed_t, self.count = None, 0
+
+    def _on(self):
+        return V._CTX[0] is not None and shim.ENABLED[0]
+
+    def set_prior(self, prior):
+        """put the generator in an arbitrary prior state (symbolic: a free symbol; native: the real generator is seeded with it and advanced)"""
+        if self._on():
+            self.seed_t, self.count = V.to_real_term(prior), 0
+        else:
+            np.random.seed(int(prior) % (2 ** 32))
+            np.random.random(int(prior) % 7)
+
+    def _uf(self, name, arity):
+        return V.ctx().uf("rng_" + name, arity)
+
+    def seed(self, k):
+        if not self._on():
+            return np.random.seed(k)
+        self.seed_t, self.count = V.to_real_term(k), 0
+
+    def _tick(self):
+        c = self.count
+        self.count += 1
+        return z3.RealVal(c)
+
+    def randint(self, lo, hi=None, size=None):
+        if not self._on():
+            return np.random.randint(lo, hi, size)
+        return V.SymReal(self._uf("randint", 2)(self.seed_t, self._tick()))
+
+    def poisson(self, lam, size=None):
+        if not self._on():
+            return np.random.poisson(lam, size)
+        lam = np.asarray(hx.unwrap(lam), dtype=object)
+        shape = lam.shape if size is None else tuple(np.atleast_1d(size))
+        lam = np.broadcast_to(lam, shape)
+        f, c = self._uf("poisson", 4), self._tick()
+        out = np.empty(shape, dtype=object)
+        for i, idx in enumerate(np.ndindex(*shape)):
+            out[idx] = V.SymReal(f(self.seed_t, c, z3.RealVal(i), V.to_real_term(lam[idx])))
+        return out
+
+    def normal(self, loc=0.0, scale=1.0, size=None):
+        if not self._on():
+            return np.random.normal(loc=loc, scale=scale, size=size)
+        shape = tuple(np.atleast_1d(size)) if size is not None else ()
+        f, c = self._uf("normal", 3), self._tick()
+        out = np.empty(shape, dtype=object)
+        for i, idx in enumerate(np.ndindex(*shape)):
+            out[idx] = loc + scale * V.SymReal(f(self.seed_t, c, z3.RealVal(i)))
+        return out
+
+    def __getattr__(self, name):
+        if self._on():
+            raise V.Unsupported("np.random.%s has no symbolic model" % name)
+        return getattr(np.random, name)
+
+
+RNG = _RNGStub()
+
+
+class _NPWithRandom:
+    def __init__(self, base):
+        object.__setattr__(self, "_base", base)
+        object.__setattr__(self, "random", RNG)
+
+    def __getattr__(self, name):
+        return getattr(self._base, name)
+
+
+def _convolve2d_same(a, k):
+    """reference model of scipy.signal.convolve2d(a, k, mode="same") for object arrays (validated natively against scipy)"""
+    a, k = np.asarray(hx.unwrap(a), dtype=object), np.asarray(hx.unwrap(k), dtype=object)
+    H, W = a.shape
+    KH, KW = k.shape
+    out = np.empty((H, W), dtype=object)
+    cy, cx = (KH - 1) // 2, (KW - 1) // 2
+    for y in range(H):
+        for x in range(W):
+            acc = np.float64(0.0)
+            for i in range(KH):
+                for j in range(KW):
+                    yy, xx = y + cy - i, x + cx - j
+                    if 0 <= yy < H and 0 <= xx < W:
+                        acc = acc + a[yy, xx] * k[i, j]
+            out[y, x] = acc
+    return out
+
+
+class _Signal:
+    def __getattr__(self, name):
+        import scipy.signal
+        return getattr(scipy.signal, name)
+
+    def convolve2d(self, a, k, mode="full", **kw):
+        import scipy.signal
+        if (shim.has_sym(a) or shim.has_sym(k)) and shim.ENABLED[0]:
+            if mode != "same":
+                raise V.Unsupported("convolve2d mode %r" % mode)
+            return _convolve2d_same(a, k)
+        return scipy.signal.convolve2d(shim.normalise(a), shim.normalise(k), mode=mode, **kw)
+
+
+class _Scipy:
+    signal = _Signal()
+
+    def __getattr__(self, name):
+        import scipy
+        return getattr(scipy, name)
+
+
+def _install_rng_stub():
+    from autoarray.dataset import preprocess
+    from autoarray.structures.arrays import kernel_2d
+    if not isinstance(preprocess.np, _NPWithRandom):
+        preprocess.np = _NPWithRandom(preprocess.np)
+    if not isinstance(kernel_2d.scipy, _Scipy):
+        kernel_2d.scipy = _Scipy()
+
+
+def _oracle_draw(kind, seed, params, shape):
+    """what a draw right after np.random.seed(seed) returns - symbolic: the same uninterpreted function at state (seed, 0)"""
+    if V._CTX[0] is not None and shim.ENABLED[0] and (V.is_sym(seed) or shim.has_sym(params) or True):
+        out = np.empty(shape, dtype=object)
+        st = V.to_real_term(seed)
+        if kind == "poisson":
+            f = V.ctx().uf("rng_poisson", 4)
+            lam = np.broadcast_to(np.asarray(params, dtype=object), shape)
+            for i, idx in enumerate(np.ndindex(*shape)):
+                out[idx] = V.SymReal(f(st, z3.RealVal(0), z3.RealVal(i), V.to_real_term(lam[idx])))
+        else:
+            f = V.ctx().uf("rng_normal", 3)
+            for i, idx in enumerate(np.ndindex(*shape)):
+                out[idx] = params * V.SymReal(f(st, z3.RealVal(0), z3.RealVal(i)))
+        return out
+    np.random.seed(int(seed))
+    if kind == "poisson":
+        return np.random.poisson(np.asarray(params, dtype=float), shape)
+    return np.random.normal(loc=0.0, scale=float(params), size=shape)
+
+
+def _diff(a, b):
+    a, b = np.asarray(hx.unwrap(a), dtype=object), np.asarray(hx.unwrap(b), dtype=object)
+    return a - b
+
+
+def body_rng(inp, H, W):
+    import autoarray as aa
+    from autoarray.dataset import preprocess
+    _install_rng_stub()
+    img = np.asarray(inp["image"]).reshape(H, W)
+    t, sky, sigma, seed = inp["t"], inp["sky"], inp["sigma"], inp["seed"]
+    p1, p2 = inp["prior"]
+    psf_v = np.asarray(inp["psf"]).reshape(3, 3)
+    seed = int(seed) if not V.is_sym(seed) else seed
+    A, E = {}, {}
+    zero2 = np.zeros((H, W))
+
+    def twice(f):
+        RNG.set_prior(p1)
+        r1 = f()
+        RNG.set_prior(p2)
+        r2 = f()
+        return r1, r2
+
+    tmap = np.full((H, W), t, dtype=object if V.is_sym(t) else float)
+    # preprocess helpers
+    r1, r2 = twice(lambda: preprocess.poisson_noise_via_data_eps_from(data_eps=np.array(img, copy=True), exposure_time_map=tmap, seed=seed))
+    A["poisson_noise_via_data_eps_from: two prior RNG states"] = _diff(r1, r2)
+    E["poisson_noise_via_data_eps_from: two prior RNG states"] = zero2
+    draw = _oracle_draw("poisson", seed, img * tmap, (H, W))
+    A["poisson_noise_via_data_eps_from: equals draw after seed(k)"] = _diff(r1, img - draw / tmap)
+    E["poisson_noise_via_data_eps_from: equals draw after seed(k)"] = zero2
+    r1, r2 = twice(lambda: preprocess.data_eps_with_poisson_noise_added(data_eps=np.array(img, copy=True), exposure_time_map=tmap, seed=seed))
+    A["data_eps_with_poisson_noise_added: two prior RNG states"] = _diff(r1, r2)
+    E["data_eps_with_poisson_noise_added: two prior RNG states"] = zero2
+    r1, r2 = twice(lambda: preprocess.gaussian_noise_via_shape_and_sigma_from(shape=(H, W), sigma=sigma, seed=seed))
+    A["gaussian_noise_via_shape_and_sigma_from: two prior RNG states"] = _diff(r1, r2)
+    E["gaussian_noise_via_shape_and_sigma_from: two prior RNG states"] = zero2
+    A["gaussian_noise_via_shape_and_sigma_from: equals draw after seed(k)"] = _diff(r1, _oracle_draw("normal", seed, sigma, (H, W)))
+    E["gaussian_noise_via_shape_and_sigma_from: equals draw after seed(k)"] = zero2
+    r1, r2 = twice(lambda: preprocess.data_with_gaussian_noise_added(data=np.array(img, copy=True), sigma=sigma, seed=seed))
+    A["data_with_gaussian_noise_added: two prior RNG states"] = _diff(r1, r2)
+    E["data_with_gaussian_noise_added: two prior RNG states"] = zero2
+    # the simulator (PSF convolution, sky, Poisson noise, noise map), with and without a caller PSF
+    for tag, with_psf in (("no psf", False), ("psf", True)):
+        psf_src = np.array(psf_v, copy=True)
+        psf = aa.Kernel2D.no_mask(values=psf_src, pixel_scales=1.0) if with_psf else None
+        psf_before = _snap(psf) if with_psf else None
+        img_src = np.array(img, copy=True)
+        image = aa.Array2D.no_mask(values=img_src, pixel_scales=1.0)
+        image_before = _snap(image)
+
+        def sim():
+            simulator = aa.SimulatorImaging(exposure_time=t, background_sky_level=sky, psf=psf, noise_seed=seed, normalize_psf=False)
+            ds = simulator.via_image_from(image=image)
+            return ds
+
+        d1, d2 = twice(lambda: _mk(sim))
+        A["SimulatorImaging(%s).via_image_from data: two prior RNG states" % tag] = _diff(d1.data, d2.data)
+        E["SimulatorImaging(%s).via_image_from data: two prior RNG states" % tag] = np.zeros(H * W)
+        A["SimulatorImaging(%s).via_image_from noise_map: two prior RNG states" % tag] = _diff(d1.noise_map, d2.noise_map)
+        E["SimulatorImaging(%s).via_image_from noise_map: two prior RNG states" % tag] = np.zeros(H * W)
+        A["SimulatorImaging(%s): image passed in is unchanged" % tag] = [_snap(image), img_src]
+        E["SimulatorImaging(%s): image passed in is unchanged" % tag] = [image_before, img]
+        if with_psf:
+            A["SimulatorImaging(psf): psf passed in is unchanged"] = [_snap(psf), psf_src]
+            E["SimulatorImaging(psf): psf passed in is unchanged"] = [psf_before, psf_v]
+        else:
+            counts = (img + sky) * t
+            draw = _oracle_draw("poisson", seed, counts, (H, W))
+            expected = (img + sky) + ((img + sky) - draw / t) - sky
+            A["SimulatorImaging(no psf).via_image_from data: equals draw after seed(k)"] = _diff(d1.data.native, expected)
+            E["SimulatorImaging(no psf).via_image_from data: equals draw after seed(k)"] = zero2
+    return A, E
+
+
+def case_rng(ctx, H, W):
+    _install_rng_stub()
+    seed = V.integer("seed")
+    ctx.assume(z3.And(seed.t >= 0, seed.t < 2 ** 32))          # every valid fixed seed (-1 means "draw a fresh seed")
+    t, sky, sigma = 4.0, V.real("sky"), 0.5        # exposure time / sigma concrete: products with the payload stay linear
+    ctx.assume(sky.t >= 0)
+    image = V.real_array("im", (H, W))
+    for e in image.reshape(-1):
+        ctx.assume(e.t >= 0)
+    psf = V.real_array("p", (3, 3))
+    for e in psf.reshape(-1):
+        ctx.assume(e.t >= 0)
+    ctx.assume(z3.Sum([e.t for e in psf.reshape(-1)]) >= z3.RealVal("1/2"))
+    p1, p2 = V.integer("prior1"), V.integer("prior2")
+    ctx.assume(z3.And(p1.t >= 0, p2.t >= 0, p1.t < 2 ** 31, p2.t < 2 ** 31))
+    inputs = {"image": image, "t": t, "sky": sky, "sigma": sigma, "seed": seed, "prior": [p1, p2], "psf": psf}
+    hx.run_body(ctx, body_rng, inputs, {"H": H, "W": W}, validate_every=1, tol=None)
+
+
+BODIES = {"case_ctor_struct": body_ctor_struct, "case_hist_vis": body_hist, "case_hist_array": body_hist, "case_hist_grid": body_hist, "case_hist_mask": body_hist, "case_hist_imaging": body_hist, "case_hist_inversion": body_hist, "case_rng": body_rng}
 
 
 def cases(tier):
